@@ -79,6 +79,11 @@ def gen_case(seed, tier="quick"):
                 op.update(with_branch=True, how=how, specs=specs)
                 if how == "collection":
                     op["parts"] = parts
+                if how in ("tensor2d", "tensor3d", "points") and rnd(seed, "reuse", len(hist)).random() < 0.5:
+                    # the same tensor / Points object again, refilled in place in between
+                    hist.append(op)
+                    op = dict(op, reuse=True, scale=rnd(seed, "reuse-scale", len(hist)).choice((1.5, -0.5, 2.0)),
+                              xseed=op["xseed"] + 1)
             hist.append(op)
     if not any(h["op"] == "fix" or h.get("with_branch") for h in hist[:1]):
         hist.insert(0, {"op": "fix", "how": "tensor3d", "specs": [_spec(r) for _ in range(2)]})
